@@ -405,7 +405,7 @@ def rule_root_template(ck):
     bound.update({k.arg: k.value for k in cw[0].keywords})
     a = bound.get(pname)
     root = q.unparse(gens[0].func.value)
-    ck.ob(rid, gp, cw[0], a is not None and q.unparse(a) == root + ".template", "the writer's initial template is the template of the file whose code is generated (%s.template)" % root)
+    ck.ob(rid, gp, cw[0], a is not None and (q.unparse(a) == root + ".template" or xunparse(gp.node, a) == xunparse(gp.node, ast.parse(root + ".template", mode="eval").body)), "the writer's initial template is the template of the file whose code is generated (%s.template)" % root)
     # the _File knows its template
     fi = ck.func(T, "_File.__init__")
     s = q.stores_to(fi.node, "self.template")
